@@ -1,5 +1,5 @@
 (** C02 — encoding a glyph to glif XML and parsing it back is lossless.
-    Statements only; proofs live in Proofs/GlifEncodeP.v (and Proofs/GlifCompleteP.v).
+    Statements only; proofs live in Proofs/GlifEncodeP.v, GlifRoundtripP.v, GlifLibsP.v, GlifFullP.v.
 
     [encode_glif ff ff3 fi fh o g] is the model of Glyph::encode_xml_impl at the level of the event
     tree a reader gets back (Model/GlifEncode.v); [parse_glif pf] the reader model of C12.
@@ -9,17 +9,23 @@
     the original.
 
     What is proved: the codec of every object kind inverts (component by component, under the
-    validity rules of C12's [glyph_rules]); the composite round trip for every valid glyph that
-    carries no lib ([C02_roundtrip_partial]: name, advance, code points in order, note, image,
-    every contour, point, component, anchor and guideline with names, identifiers, colours and
-    transforms); the exact condition under which lib text and notes survive (finding F3);
+    validity rules of C12's [glyph_rules]); the object libs moved into the lib by the writer come
+    back onto their objects in the reader ([C02_object_libs_roundtrip]); the composite round trip
+    for every valid glyph outside F3, with or without a glyph lib and object libs
+    ([C02_roundtrip]: name, advance, code points in order, note, image, every contour, point,
+    component, anchor and guideline with names, identifiers, colours, transforms and libs, the
+    glyph lib; dictionaries come back with their keys sorted at every level, which is what the
+    writer does); the exact condition under which lib text and notes survive (finding F3);
     independence of the write options.
-    What is NOT proved: the composite round trip for glyphs WITH a glyph lib or object libs — it
-    needs the dictionary algebra of dump_object_libs / load_object_libs / sort_keys_rec and the
-    read-back of the numeric, data and date leaves of the lib.  That part is compared with the
-    implementation on every generated glyph by the correspondence run instead. *)
+    Library behaviour beyond [H_ff]/[H_ff3] that [C02_roundtrip] takes as hypotheses (L1, validated
+    on every value by the run): [H_fh] — hexadecimal code points; [H_fi] — plist integers between
+    -2^63 and 2^64-1 are read back from their decimal text.  Base64 data needs no hypothesis (the
+    model's decoder inverts its encoder, [C02_data_read_back]).  Dates are kept as their text (20 characters, shape checked
+    by [date_shape]); the XML text layer (escaping, UTF-8) is the tree-level boundary of C02 and is
+    covered by the correspondence run, not by a theorem. *)
 Require Import Norad.Model.GlifSpec Norad.Model.GlifDen Norad.Model.GlifEncode.
-Require Import Norad.Proofs.GlifParseP Norad.Proofs.GlifEncodeP Norad.Proofs.GlifRoundtripP.
+Require Import Norad.Proofs.GlifParseP Norad.Proofs.GlifEncodeP Norad.Proofs.GlifRoundtripP
+        Norad.Proofs.Base64P Norad.Proofs.GlifLibsP Norad.Proofs.GlifFullP.
 Open Scope N_scope.
 
 (** ---------- lib text and notes: the exact extent of finding F3 ---------- *)
@@ -115,8 +121,9 @@ End Codecs.
     such contours, see [C02_encode_drops_empty_contours])
     and no lib is encoded to a tree that the reader accepts, and the glyph read back agrees in
     every field: numbers exactly (a zero loses its sign), colours to three decimals, object libs
-    absent.  PARTIAL: glyphs with a glyph lib or object libs are not covered (see the header). *)
-Theorem C02_roundtrip_partial : forall pf ff ff3 fi fh o close3,
+    absent.  (The special case of [C02_roundtrip] below with the lib conditions replaced by
+    [lib_free]; kept because its conclusion says outright that no lib appears.) *)
+Theorem C02_roundtrip_libfree : forall pf ff ff3 fi fh o close3,
   (forall x, fl_finite x = true -> pf (ff x) = Some x) ->
   (forall x, unit_range x = true ->
      ~ In 44 (ff3 x) /\ exists y, pf (chan ff3 x) = Some y /\ unit_range y = true /\ close3 x y) ->
@@ -159,6 +166,96 @@ Proof.
   - unfold lib_free, g_sample; cbn. repeat split; repeat constructor.
 Qed.
 
+(** ---------- object libs: out of the objects when writing, back onto them when reading ---------- *)
+(** [relib g]: the writer's [dump_object_libs] puts the lib of every anchor, guideline, contour,
+    point and component (contours without points skipped) under [public.objectLibs] of the glyph
+    lib, keyed by the object's identifier; the reader's [load_object_libs] takes them from there
+    onto the objects with these identifiers (anchors, guidelines, contours with their points,
+    components) and removes the key.  On a glyph whose lib-carrying objects have identifiers,
+    whose identifiers are unique and whose lib has no [public.objectLibs] of its own this is the
+    identity (no XML in between; with the XML: [C02_roundtrip]). *)
+Theorem C02_object_libs_roundtrip : forall g,
+  libs_have_ids g -> Forall (fun c => has_points c = true) (gcontours g) -> NoDup (glyph_ids g) ->
+  lookup objlibs_key (glib g) = None ->
+  relib g = Ok g.
+Proof. exact object_libs_roundtrip. Qed.
+Theorem C02_data_read_back : forall b, bytes_ok b = true ->
+  let t := filter (fun c => negb (is_ascii_ws c)) (b64_encode b) in
+  b64_decode (S (List.length t)) t = Some b.
+Proof. exact b64_read_back. Qed.
+(** a lib value written by the property-list writer is read back as it is (no line break in its
+    text, or indent width 0; integers, reals, data, dates within the reader's range) *)
+Theorem C02_lib_value_read_back : forall pf ff fi o,
+  (forall x, fl_finite x = true -> pf (ff x) = Some x) ->
+  (forall z, int_ok z = true -> plist_int (fi z) = Some z) ->
+  forall v, pv_good (o_count o) v = true -> pv_of pf (pv_node ff fi o v) = Some v.
+Proof. exact pv_read_back. Qed.
+
+(** ---------- the composite round trip, libs included ---------- *)
+(** Every glyph that obeys the glyph rules of C12, holds finite numbers and lib values the
+    property-list writer and reader agree on ([libs_valid]: no duplicate keys, integers and bytes in
+    range, finite reals, well-shaped dates, no [public.objectLibs] of its own) and is outside F3
+    ([c02_f3 o g = false]: the note survives; lib text without line breaks, or indent width 0) is
+    encoded to a tree that the reader accepts, and the glyph read back agrees in every field:
+    numbers exactly (a zero advance loses its sign), colours to three decimals, every object lib
+    and the glyph lib with the keys of every dictionary sorted ([sort_keys_rec], as the writer
+    does), nothing else changed. *)
+Theorem C02_roundtrip : forall pf ff ff3 fi fh o close3,
+  (forall x, fl_finite x = true -> pf (ff x) = Some x) ->
+  (forall x, unit_range x = true ->
+     ~ In 44 (ff3 x) /\ exists y, pf (chan ff3 x) = Some y /\ unit_range y = true /\ close3 x y) ->
+  (forall c, is_scalar c = true -> parse_hex (fh c) = Some c) ->
+  (forall z, int_ok z = true -> plist_int (fi z) = Some z) ->
+  forall g, glyph_rules g -> glyph_finite g -> libs_valid g = true -> c02_f3 o g = false ->
+  exists t g',
+    encode_glif ff ff3 fi fh o g = Ok t /\ parse_glif pf (written_doc t) = Ok g' /\
+    gname g' = gname g /\ gwidth g' = zero_norm (gwidth g) /\ gheight g' = zero_norm (gheight g) /\
+    gcps g' = gcps g /\ gnote g' = gnote g /\ oimage_rel close3 (gimage g) (gimage g') /\
+    Forall2 (guide_rt close3) (gguides g) (gguides g') /\
+    Forall2 (anchor_rt close3) (ganchors g) (ganchors g') /\
+    gcomps g' = map comp_rt (gcomps g) /\ gcontours g' = map contour_rt (gcontours g) /\
+    glib g' = sort_keys_rec (glib g).
+Proof. exact roundtrip_full. Qed.
+
+(** non-vacuity: a glyph with a glyph lib of every value kind (keys out of order, nested), and a lib
+    on an anchor, a guideline, a component, a contour and a point, that meets every hypothesis *)
+Definition d_sample : dict :=
+  [([122], PStr [115]);
+   ([97], PDict [([98], PInt 3); ([97], PBool true); ([99], PReal (FFin true 5 1))]);
+   ([109], PArr [PStr [120]; PInt (-1); PData [0; 17; 255];
+                 PDate [50;48;50;48;45;48;49;45;48;50;84;48;51;58;48;52;58;48;53;90]])].
+Definition g_sample_libs : glyph :=
+  mkGlyph [97] (FFin false 125 2) f0 [65; 66] (Some [104; 105]) None
+    [mkGuide (LAngle f0 f1 f0) None None (Some [103; 49]) (Some [([107], PStr [118])])]
+    [mkAnchor f1 f0 (Some [116]) (Some (f1, f0, f0, f1)) (Some [97; 49]) (Some d_sample)]
+    [mkComp [98] t_identity (Some [107; 49]) (Some [([98], PBool false); ([97], PInt 7)])]
+    [mkContour [mkPoint f0 f1 Line false (Some [97]) (Some [112]) (Some [([112], PStr [113])]);
+                mkPoint f1 f0 Off false None None None;
+                mkPoint f1 f1 QCurve true None None None] (Some [99]) (Some [([99], PArr [])])]
+    d_sample.
+Example C02_roundtrip_hypotheses_satisfiable_libs :
+  glyph_rules g_sample_libs /\ glyph_finite g_sample_libs /\ libs_valid g_sample_libs = true /\
+  c02_f3 (mkOpts 9 1 false) g_sample_libs = false /\
+  sort_keys_rec (glib g_sample_libs) <> glib g_sample_libs.
+Proof.
+  split; [|split; [|split; [|split]]].
+  - unfold glyph_rules, g_sample_libs; cbn [gname gcps gimage gguides ganchors gcomps gcontours].
+    split; [reflexivity|]. split; [repeat constructor; cbn; intuition discriminate|].
+    split; [repeat constructor|]. split; [exact I|].
+    split; [constructor; [|constructor]; unfold guide_rules, line_rules, lib_needs_id; cbn; repeat split; congruence|].
+    split; [constructor; [|constructor]; unfold anchor_rules, lib_needs_id; cbn; repeat split; congruence|].
+    split; [constructor; [|constructor]; unfold comp_rules, lib_needs_id; cbn; repeat split; congruence|].
+    split.
+    + constructor; [|constructor]. unfold contour_rules, lib_needs_id; cbn [cpoints cid clib].
+      split; [discriminate|]. split; [apply Norad.Proofs.ContourP.legalb_spec; vm_compute; reflexivity|].
+      split; [repeat constructor; cbn; congruence|]. split; [reflexivity|congruence].
+    + apply Norad.Proofs.GlifSpecP.nodupb_spec. vm_compute. reflexivity.
+  - unfold glyph_finite, g_sample_libs, contour_finite, transform_finite, line_finite; cbn. repeat split; repeat constructor.
+  - vm_compute. reflexivity.
+  - vm_compute. reflexivity.
+  - vm_compute. discriminate.
+Qed.
+
 (** ---------- the write options ---------- *)
 (** The options reach the tree only through the lib text: when the dictionary handed to the
     plist printer holds no line break, every option set yields the same tree. *)
@@ -186,6 +283,16 @@ Example C02_F3_lib_witness :
   end /\
   c02_f3 (mkOpts 9 1 false) g_lib_multiline = true /\ c02_f3 (mkOpts 9 0 false) g_lib_multiline = false.
 Proof. vm_compute. repeat split; reflexivity. Qed.
+(** the keys of the lib come back sorted at every level (arrays are not reordered) *)
+Example C02_lib_keys_sorted_example :
+  let g := mkGlyph [97] f0 f0 [] None None [] [] [] []
+             [([122], PStr [115]); ([97], PDict [([98], PBool true); ([97], PArr [PStr [122]; PStr [97]])])] in
+  match reread (mkOpts 9 1 false) g with
+  | Ok g' => glib g' = sort_keys_rec (glib g) /\
+             glib g' = [([97], PDict [([97], PArr [PStr [122]; PStr [97]]); ([98], PBool true)]); ([122], PStr [115])]
+  | _ => False
+  end.
+Proof. vm_compute. split; reflexivity. Qed.
 (** contours without points are not written (e956b60): the writer's output is that of the glyph
     without them, for ALL glyphs; the round-trip theorem applies to that glyph *)
 Theorem C02_encode_drops_empty_contours : forall ff ff3 fi fh o g,
